@@ -10,6 +10,19 @@ COMMON_NOTE = ("Trusted base: pyvc engine (AST transform T1-T3 of the real sourc
                "lift to C), A3 (integer powers), A4 (path forking via z3), A5 (numpy shim contracts, listed per run in evidence.trusted_base). ")
 
 CLAIMED = {
+    "C51": dict(
+        category="proof",
+        text=("(1) xi = 1: gamma_variation(_qed) and every expanded factor are the identity, Operator.mu2 and Lsv are unshifted, the varied kernel IS the unvaried kernel "
+              "(orders 1-4, QED orders up to (4,2), all NS methods); (2) exponentiated: gamma'(a') == gamma(flow_{-L}(a')) mod a'^(n+1) with the coupling flow as a Lie series over "
+              "generic beta coefficients and an arbitrary higher-order term; (3) expanded: K satisfies the flow equation d_L K + beta d_a K = K gamma on every coefficient it is built to "
+              "(scalars, generic non-commuting 2x2 and 4x4 matrices; QED factors = QCD factor + a_em L gamma01 iff a_em runs); (4) non-singlet kernels end to end through the real "
+              "quad_ker_qcd / ns.dispatcher, every method, orders 1-4: the lambda-series of the relative difference to the central kernel vanishes below lambda^n; "
+              "(5) wiring: Lsv = ln(xi^2) of the coupling scales, matching ratios of the couplings scaled iff exponentiated, coupling lists on Operator.mu2. "
+              "Known finding F16: in QED mode the coupling lists ignore the shifted scales."),
+        note=COMMON_NOTE + "Singlet sector through (2),(3) and the uniqueness lemma (trusted) with C08, C15/C16, C53; mixed QCDxQED terms and the threshold-crossing case are not covered.",
+        technique="contract-based deductive verification: symbolic execution over truncated power series (Lie-series spec of the coupling flow) + exact polynomial normal form",
+        design_ref="DESIGN.md section 2, C51",
+    ),
     "C53": dict(
         category="proof",
         text=("Boundary-case logic that makes the operator of the last segment a continuous function of the target scale on the closed patch: "
